@@ -210,9 +210,68 @@ impl Module {
     }
 }
 
+/// Functions that some function body names with `ref.func` but that occur
+/// nowhere outside of function bodies (no element segment, global initializer
+/// or export mentions them), sorted by id.
+///
+/// Such a module does not validate ("undeclared function reference"). Edits
+/// can easily produce it, e.g. deleting or retargeting the only export of a
+/// function that code still refers to.
+fn undeclared_ref_funcs(module: &crate::Module) -> Vec<crate::FunctionId> {
+    use crate::ir::{dfs_in_order, RefFunc, Visitor};
+    use crate::map::IdHashSet;
+
+    struct RefFuncs(IdHashSet<crate::Function>);
+    impl<'instr> Visitor<'instr> for RefFuncs {
+        fn visit_ref_func(&mut self, instr: &RefFunc) {
+            self.0.insert(instr.func);
+        }
+    }
+
+    let mut referenced = RefFuncs(Default::default());
+    for (_, func) in module.funcs.iter_local() {
+        dfs_in_order(&mut referenced, func, func.entry_block());
+    }
+    if referenced.0.is_empty() {
+        return Vec::new();
+    }
+
+    let mut declared = IdHashSet::default();
+    for element in module.elements.iter() {
+        match &element.items {
+            ElementItems::Functions(funcs) => declared.extend(funcs.iter().cloned()),
+            ElementItems::Expressions(_, exprs) => {
+                declared.extend(exprs.iter().filter_map(|e| match e {
+                    ConstExpr::RefFunc(f) => Some(*f),
+                    _ => None,
+                }))
+            }
+        }
+    }
+    for global in module.globals.iter() {
+        if let crate::GlobalKind::Local(ConstExpr::RefFunc(f)) = global.kind {
+            declared.insert(f);
+        }
+    }
+    for export in module.exports.iter() {
+        if let crate::ExportItem::Function(f) = export.item {
+            declared.insert(f);
+        }
+    }
+
+    let mut undeclared = referenced
+        .0
+        .into_iter()
+        .filter(|f| !declared.contains(f))
+        .collect::<Vec<_>>();
+    undeclared.sort();
+    undeclared
+}
+
 impl Emit for ModuleElements {
     fn emit(&self, cx: &mut EmitContext) {
-        if self.arena.len() == 0 {
+        let undeclared = undeclared_ref_funcs(cx.module);
+        if self.arena.len() == 0 && undeclared.is_empty() {
             return;
         }
 
@@ -270,6 +329,15 @@ impl Emit for ModuleElements {
                     }
                 }
             }
+        }
+
+        // Keep the module valid: declare what is only referenced from code.
+        if !undeclared.is_empty() {
+            let idx = undeclared
+                .iter()
+                .map(|&func| cx.indices.get_func_index(func))
+                .collect::<Vec<_>>();
+            wasm_element_section.declared(wasm_encoder::Elements::Functions(&idx));
         }
 
         cx.wasm_module.section(&wasm_element_section);
